@@ -43,7 +43,6 @@ Section Norm.
 End Norm.
 
 Ltac nf := repeat first [ rewrite gcmd_N | rewrite ucmd_N | rewrite gtf_N | rewrite utf_N | rewrite note_N | rewrite gen_N ].
-Lemma DF_S : exists d, DF = S d. Proof. exists 63. reflexivity. Qed.
 Lemma drop_fs_run d en t H : drop_fs (S d) (mkF en (LRun t) []) H = H.
 Proof. reflexivity. Qed.
 Ltac ev := unfold set_atomic, set_spawnq, set_ready, set_eff, set_evs, set_alive, set_slab, slab_set, slab_remove, slab_get, slab_clear, spawn_one, kill_flag, fs_of;
@@ -75,7 +74,7 @@ Proof.
   ev. unfold loop_body at 1. nf. ev. nf. ev.
   unfold drain_body at 1. nf. ev. nf. unfold run_task_body at 1. nf. ev. rewrite was_aborted_N by reflexivity. rewrite Nat.eqb_refl. ev.
   cbn [funs step_funs rpoll]. ev. nf. ev.
-  unfold finish_task. nf. ev. nf. ev. destruct DF_S as [d ->]. rewrite drop_fs_run. nf. ev.
+  unfold finish_task. nf. ev. nf. ev. unfold dfuel. rewrite drop_fs_run. nf. ev.
   unfold drain_body at 1. nf. ev.
   unfold loop_body at 1. nf. ev. nf. ev.
   unfold settle_body at 1. rewrite was_aborted_N by reflexivity. ev. unfold loop_body at 1. nf. ev. nf. ev.
@@ -83,9 +82,9 @@ Proof.
 Qed.
 
 (* dropping it afterwards touches nothing else either *)
-Lemma drop_done H w : drop_cmd DF (length (cmds H)) (N H fl_done (cm_done H w) [false] [])
+Lemma drop_done H w : drop_cmd (dfuel (N H fl_done (cm_done H w) [false] [])) (length (cmds H)) (N H fl_done (cm_done H w) [false] [])
   = N H fl_done (mkCmd false [] [] [] 0 0 [] [] (Some w) [] (length (tfl H)) (length (cmds H))) [false] [].
-Proof. destruct DF_S as [d ->]. cbn [drop_cmd]. nf. unfold cm_done. ev. reflexivity. Qed.
+Proof. unfold dfuel. cbn [drop_cmd]. nf. unfold cm_done. ev. reflexivity. Qed.
 
 (* ---------- the Core ---------- *)
 Lemma xget_xinsert cid s q sl : xinsert cid s = (q, sl) -> xget q sl = Some cid.
